@@ -24,6 +24,10 @@ pub fn multi_file_project(n: usize) -> Project {
         ));
         if i == 0 {
             s.push_str("pub fn note(app: &tauri::AppHandle) { app.emit(\"note\", 1).unwrap(); }\n");
+            // several channels, parameters and fields in one command / struct: anything that is
+            // hashed through an unordered container shows up as a cache miss in a fresh process
+            s.push_str("#[tauri::command]\npub fn multi(alpha: i32, beta: String, gamma: Option<bool>, on_a: tauri::ipc::Channel<i32>, on_b: tauri::ipc::Channel<String>, on_c: tauri::ipc::Channel<T0>) -> bool { true }\n");
+            s.push_str("#[derive(Serialize, Deserialize)]\n#[serde(rename_all = \"camelCase\")]\npub struct Wide { #[validate(length(min = 1, max = 5))] pub one: String, #[serde(rename = \"TWO\")] pub two: i32, pub three: Option<T0>, pub four: Vec<String> }\n#[tauri::command]\npub fn wide(w: Wide) -> Wide { w }\n");
         }
         // spread over directories of different depth
         let path = match i % 3 {
